@@ -8,8 +8,9 @@
 
   Nothing new is proved here: every conjunct of `Cxx_Statement` is the full statement (all binders and hypotheses) of
   one existing theorem of `Pta.Cxx` / `Pta.E2E` (`Pta.C12` / `Pta.C13` of Props/Tables.lean and `Pta.C04` of
-  Props/TablesWiring.lean included; the theorems of Props/C07Text, C09Layer, C10Limit, C12Scan, C14Text, C15Text live in
-  the namespaces `Pta.C07`, `Pta.C09`, `Pta.C10`, `Pta.C12`, `Pta.C14`, `Pta.C15`, those of Props/E2EWide in `Pta.E2E`),
+  Props/TablesWiring.lean included; the theorems of Props/C07Text, C09Layer, C10Limit, C12Scan, C13More, C14Text, C14Scan,
+  C15Text, C15Hist live in the namespaces `Pta.C07`, `Pta.C09`, `Pta.C10`, `Pta.C12`, `Pta.C13`, `Pta.C14`, `Pta.C14`,
+  `Pta.C15`, `Pta.C15`, those of Props/E2EWide in `Pta.E2E`),
   and `theorem cxx` is the tuple of those theorems.  Non-vacuity of the hypotheses of every conjunct is shown by the `example`s next to
   the original theorem in its Props file.
 
@@ -52,6 +53,9 @@ import PtaProofs.Props.C14Text
 import PtaProofs.Props.C15Text
 import PtaProofs.Props.E2EWide
 import PtaProofs.Props.TablesWiring
+import PtaProofs.Props.C13More
+import PtaProofs.Props.C14Scan
+import PtaProofs.Props.C15Hist
 
 namespace Pta.Headline
 
@@ -1466,8 +1470,9 @@ section C10
           the import from the importing module, except externals that match an external exclusion pattern or have a
           matching ancestor, which disappear together with their imports" — conjunct 4 (`Pta.C10.externals_included`, no
           level limit): for a converted import `i` with external importee: retained → importee and all dotted parents
-          are nodes and the edge exists (the side condition `isInfix base importee = false` of earlier versions is gone since the repair of F-C10e, 4ee40c9: the library skipped importees
-          whose name contains the root path string); not retained → the importee is not a node and no edge touches it,
+          are nodes and the edge exists (the side condition `isInfix base importee = false` of earlier versions is gone
+          since the repair of F-C10e, library commit 4ee40c9: the library skipped importees whose dotted name CONTAINS
+          the string `str(root_path)`; see (4)); not retained → the importee is not a node and no edge touches it,
           provided it is not itself a parsed module or a parent of one.  Conjunct 5
           (`Pta.C10.externals_included_limit`): the retained half under ANY level limit, for dot-free directory names.
           The NOT-retained half under a level limit (Props/C10Limit.lean; `L = shiftedLimit o mp`) — conjunct 6
@@ -1492,9 +1497,23 @@ section C10
           scans have internal nodes / internal imports / internal hierarchy edges that are permutations of one another
           (identical as sets; list order is not specified) — for EVERY level limit, no well-formedness assumption;
           conjunct 2 (`Pta.C10.internal_invariant_errors`): and the scans fail alike, with the same error.
+      (4) (the repair of F-C10e; not a clause of the English text, but the reason conjuncts 4–9 carry no hypothesis
+          about the root path string `base`) `generateGraph` uses the REPAIRED `moduleList`; the code before the
+          repair is kept in the model as `moduleListBeforeRepair` (PtaModel/Scan.lean).  Witness (cited, not
+          conjoined): `Pta.C10.relative_root_before_repair` — root path given as the relative string `proj`,
+          externals included, `proj/m.py` with `import projx, proj_ext.m, os.path`: the import records are external
+          and retained, the OLD module list lacks `projx`, `proj_ext.m`, `proj_ext` (their names contain `proj`) so
+          that before the repair `projx` was not a node and the edge `proj.m → projx` was missing (clause (2)
+          violated); the repaired scan has both.  Conjunct 10 (`Pta.C10.moduleList_eq_before_repair_of_absolute`): for
+          ABSOLUTE root paths the repair changes nothing — if the root path string contains a `/` and no importee
+          does (dotted module names never do), the old and the repaired code compute the same module list; more
+          generally whenever the substring test fires on no external importee
+          (`Pta.C10.moduleList_eq_before_repair_of_no_infix`).
     Not carried by a theorem (correspondence check only / outside the model):
       * which imported names are "external" in Python's sense (stdlib / site-packages): in the model external = not
         `isInternal · (internalPrefix rootName mp)`.
+      * that `moduleListBeforeRepair` / `moduleList` transcribe the library before / after commit 4ee40c9
+        (correspondence runs on both versions).
       * under a level limit, an excluded external whose pattern hits only BELOW the cut does not disappear when a
         retained external (or a parsed module) flattens onto the same name: that is the model's (and the library's)
         behaviour (`not_retained_limit_naive_counterexample`), stated exactly by conjunct 9, not a gap of the proof.
@@ -1600,13 +1619,18 @@ def C10_Statement : Prop :=
         flattenNode (shiftedLimit o mp) i.importee ∈ withParents (flattenNode (shiftedLimit o mp) j.importee))) ∧
     (flattenNode (shiftedLimit o mp) i.importee ∉ g.nodes →
       ∀ x ∈ g.edges, x.src ≠ flattenNode (shiftedLimit o mp) i.importee ∧
-        x.dst ≠ flattenNode (shiftedLimit o mp) i.importee))
+        x.dst ≠ flattenNode (shiftedLimit o mp) i.importee)) ∧
+  -- 10 `Pta.C10.moduleList_eq_before_repair_of_absolute`
+  (∀ (mt : Str → Str → Bool) (base : Str) (o : ScanOptions) (pre : Str)
+    (parsedModules : List Str) (imports : List ImportRec),
+    '/' ∈ base → (∀ i ∈ imports, '/' ∉ i.importee) →
+    moduleListBeforeRepair mt base o pre parsedModules imports = moduleList mt base o pre parsedModules imports)
 
 theorem c10 : C10_Statement :=
   ⟨@Pta.C10.internal_invariant_perm, @Pta.C10.internal_invariant_errors, @Pta.C10.externals_excluded,
    @Pta.C10.externals_included, @Pta.C10.externals_included_limit,
    @Pta.C10.nodes_included_limit, @Pta.C10.externals_not_retained_limit, @Pta.C10.externals_not_retained_uncut,
-   @Pta.C10.externals_not_retained_iff⟩
+   @Pta.C10.externals_not_retained_iff, @Pta.C10.moduleList_eq_before_repair_of_absolute⟩
 
 end C10
 
@@ -1937,7 +1961,7 @@ end C12
 
 /-! ## C13 -/
 section C13
-open PtaSpec
+open PtaSpec Pta.C13M
 
 /-- C13 — Undefined or incomplete specifications never produce a verdict.
     English statement (verbatim): "A rule that mentions a module name absent from the architecture, a regex matching
@@ -1960,8 +1984,51 @@ open PtaSpec
           (`Pta.C13.anything_unknown_name`) — also when `_convert_aliases` drops that subject (repair of F-C13b,
           `Pta.C13.unknown_name_anything_rejected`); for layer rules with `any layer` conjunct 7
           (`Pta.C13.layer_anything_unknown_name`).  (Specification-level form: `Pta.C01.unknown_name_no_verdict`.)
+          Absent modules BEHIND A LAYER (Props/C13More.lean; `compileLayerRule larch r`, Bridge/LayerAbs.lean: the
+          LayerRule object after the complete builder chain of `r : LRuleSpec`, all 12 shapes and the two `any layer`
+          forms; `mentionedLayers r`: the subject layer and, unless `any layer`, the object layers; `mentioned larch r`:
+          the filters these layers list) — conjunct 21 (`Pta.C13.layer_unknown_module`): if a layer the rule MENTIONS
+          lists by name an identifier that is not a node, `assert_applies` raises the lookup error, on every graph,
+          for every regex engine, provided the regexes of the mentioned layers all have a match (otherwise the no-match
+          error wins, conjunct 23) and the subject layer / the object layers list something (through the fluent
+          chain, with the index of the raising call: `Pta.C13.layer_unknown_module_chain`; next to regexes in a module
+          rule: `Pta.C13.unknown_name_with_regex`).  Conjunct 22 (`Pta.C13.layer_unmentioned_irrelevant`): layers the
+          rule does NOT mention are irrelevant for the lookup error and the no-match error — two layered architectures
+          that define the mentioned layers alike raise them together; in particular an absent module listed only by an
+          unmentioned layer is NOT an error (`Pta.C13.layer_unmentioned_absent_no_lookup_error`; the matcher looks
+          nothing up for such layers — stage description: `Pta.C13.layer_matcher_error_stages`).
+          Absent modules BEHIND A DIAGRAM (`withBase base m`: the name `with_base_module` gives the component `m`;
+          `Checked p m`: `m` is drawn together with another component, or is an end of an arrow) — conjunct 25
+          (`Pta.C13.diagram_unknown_component`): a checked component that is, after prefixing, not a node makes the
+          generated rule batch raise the lookup error, both modes, any base module, for every parse result without a
+          dependor with an empty dependee list (`hne`; every parser output is one, `Pta.C13.parse_result_shape`);
+          conjunct 26 (`Pta.C13.diagram_lookup_error_iff`): EXACTLY then, and the batch never raises anything else;
+          conjunct 28 (`Pta.C13.diagram_file_lookup_error_iff`): the same of `DiagramRule.assert_applies` on every file
+          that parses (no `hne`; sufficient form `Pta.C13.diagram_file_unknown_component`; for every builder history
+          supplying that file last: `Pta.C13.diagram_history_unknown_component`).  The BOUNDARY — conjunct 27
+          (`Pta.C13.diagram_single_component`): a diagram with ONE isolated component generates no rule at all, nothing
+          is looked up and the check passes on every graph whether the component exists or not: for that diagram the
+          English clause does not hold of the library (and "exactly the checked components" of conjunct 26 is the
+          true statement).
+          TOO-DEEP NAMES against level-limited architectures — conjunct 29 (`Pta.C13.too_deep_not_node`): on the graph
+          built with `level_limit = k` no well-formed name with more than `k+1` components is a node; conjunct 30
+          (`Pta.C13.too_deep_name`): hence a complete regex-free module rule naming (`are_named` or
+          `are_sub_modules_of`) a module of the architecture below the limit raises the lookup error on the limited
+          graph (with matching regexes elsewhere in the rule: `Pta.C13.too_deep_name_with_regex`); conjunct 31
+          (`Pta.C13.too_deep_layer`): the same behind a mentioned layer.  (For what happens to verdicts of layer /
+          diagram rules under a limit see `Pta.C09.layer_verdict_not_preserved_deep`,
+          `diagram_verdict_not_preserved_deep`.)
       (2) "a regex matching nothing" — conjunct 5 (`Pta.C13.no_match_wins_over_unknown_name`): a regex without a match in
           subject or object position raises the no-match error, whatever else the rule says (even next to an absent name).
+          REGEX LAYERS — conjunct 23 (`Pta.C13.layer_regex_no_match`, the 12 shapes): some mentioned layer contains a
+          regex filter matching no node — `ImpossibleMatch`, never a verdict, NO hypothesis about the names (the
+          no-match error wins over the lookup error of an absent module in the same or another mentioned layer);
+          conjunct 24 (`Pta.C13.layer_regex_no_match_any`): the two `any layer` forms with the subject layer defined by
+          `have_modules_with_names_matching(p)` (the only way the builder puts a regex into a layer).  On ARBITRARY
+          layers (names and regexes mixed, not definable through the builder) `_convert_aliases` runs first:
+          `Pta.C13.layer_regex_no_match_any_converted` (the regex must survive the alias conversion and no absent name
+          may be dropped by it) and, the other way round, `Pta.C13.layer_any_dropped_absent_wins` (an absent module
+          dropped by the alias conversion is reported first — lookup error).
       (3) "or a layer that was never defined" and "layer rule … incomplete or contradictory" — conjunct 8
           (`Pta.C13.layer_rule_history`): a LayerRule history the automaton rejects raises ImproperlyConfigured at
           exactly that call; an undefined layer raises a lookup error at the call that names it (`.lookupAt i`); a
@@ -1985,6 +2052,17 @@ open PtaSpec
           `Pta.C04.module_object_entry_eq_path_entry` the same holds of the module-object entry point for package
           module objects.  (With options that pass the check the entry point returns what the scan returns, graph or
           the scan's error: `Pta.C04.path_entry_eq_generateGraph`.)
+          PATH CONTAINMENT spelled out (Props/C13More.lean) — conjunct 32 (`Pta.C13.module_path_outside_root`): the
+          option checks pass (`entryOptionsError (a.flags true) = none`) and `module_path.relative_to(root_path)`
+          raises (`PPath.relativeTo … = .error .lookupError`; by `Pta.C13.relative_to_error_iff` exactly when the roots
+          differ or the components of `root_path` are not a prefix of those of `module_path`) — the path entry point
+          raises that error (`ValueError`, kind `lookupError`) for every file system; conjunct 33
+          (`Pta.C13.options_before_paths`): ORDER of the checks — a contradictory option set is ImproperlyConfigured
+          whatever the two paths are, in particular it wins over the path error; conjunct 34
+          (`Pta.C13.module_objects_outside_root`): the same through the module-object entry point, the two paths being
+          the `dirname`s of the two `__file__`s (in terms of the two directories:
+          `Pta.C13.module_objects_outside_root_dirs`; order of the checks there:
+          `Pta.C13.module_objects_options_before_paths`).
       (6) "diagram without file or without start/end tags" — conjunct 10 (`Pta.C13.diagram_without_file`, holds by
           evaluation of `diagramAssert … none …`) and conjunct 11 (`Pta.C13.diagram_without_tags`; the parser-level
           statement is `Pta.C06.no_tags`).
@@ -2008,12 +2086,18 @@ open PtaSpec
     Not carried by a theorem (correspondence check only / outside the model):
       * the Python exception CLASSES (ImproperlyConfigured, KeyError / NetworkXError for lookups, ImpossibleMatch,
         PumlParsingError, ValueError from `Path.relative_to`): `ErrKind` is a naming convention of the harness.
-      * "too-deep module names against level-limited architectures" are instances of (1) on the limited graph (no
-        separate theorem; for layer / diagram rules see `Pta.C09.layer_verdict_not_preserved_deep`,
-        `diagram_verdict_not_preserved_deep`).
+      * absent modules: the cases in which the library gives a VERDICT although an absent name was written down are
+        part of the theorems, not gaps — a module listed only by a layer the rule does not mention (conjunct 22), one
+        isolated diagram component (conjunct 27) — and one observation outside the builder's typed API (an `example`
+        of Props/C13More.lean): the alias conversion compares identifiers of REGEX filters like module names, so of
+        the two patterns `p`, `p.zz` passed as a list to `have_name_matching` the second is dropped and never
+        converted; that it matches nothing goes unnoticed.  Too-deep names behind a DIAGRAM on a level-limited
+        graph are instances of conjuncts 25–28 with `too_deep_not_node` (conjunct 29); no separate theorem.
+      * too-deep names on level-limited graphs of a SCAN: conjuncts 29–31 are about `archGraphLim a (some k)`; the link
+        to scanned trees is C09 (`Pta.C09`, level limit at scan level), not composed here.
       * of path containment: that `pathlib.Path.relative_to` behaves as the transcription `PPath.relativeTo` (pure
         POSIX path arithmetic on the two strings: no `resolve()`, `..` kept, no symlinks, no Windows paths) — the
-        containment test itself is in the model now (conjunct 20).
+        containment test itself and the order of the entry-point checks are in the model (conjuncts 20, 32–34).
       * DiagramRule histories: a `DiagramRule` object re-used for a second `assert_applies`, and `from_file` on a path
         that cannot be read (the file CONTENT is the argument of `fromFile` in the model). -/
 def C13_Statement : Prop :=
@@ -2116,7 +2200,92 @@ def C13_Statement : Prop :=
   -- 20 `Pta.C04.path_entry_option_error`
   (∀ (mt : Str → Str → Bool) (fs : Str → List Entry) (rootPath modulePath : Str) (a : EntryArgs) (k : ErrKind),
     entryOptionsError (a.flags (entryPaths rootPath modulePath).toBool) = some k →
-    getEvaluableArchitecture mt fs rootPath modulePath a = .error (.kind k))
+    getEvaluableArchitecture mt fs rootPath modulePath a = .error (.kind k)) ∧
+  -- 21 `Pta.C13.layer_unknown_module`
+  (∀ (mt : Str → Str → Bool) (g : PGraph Str) (larch : LArch) (r : LRuleSpec),
+    (r.anything = true → r.verb = .shouldNot) →
+    larch.getD r.subject ≠ [] → (r.anything = true ∨ r.objects.flatMap larch.getD ≠ []) →
+    (∀ f ∈ mentioned larch r, f.isRegex = true → ∃ m ∈ g.nodes, mt f.id m = true) →
+    ∀ (L : Str), L ∈ mentionedLayers r → ∀ (f : Filter), f ∈ larch.getD L →
+    f.isRegex = false → g.hasNode f.id = false →
+    assertAppliesLayer mt (compileLayerRule larch r) g = .err .lookupError) ∧
+  -- 22 `Pta.C13.layer_unmentioned_irrelevant`
+  (∀ (mt : Str → Str → Bool) (g : PGraph Str) (larch larch' : LArch) (r : LRuleSpec),
+    (r.anything = true → r.verb = .shouldNot) →
+    larch.getD r.subject ≠ [] → (r.anything = true ∨ r.objects.flatMap larch.getD ≠ []) →
+    (∀ L ∈ mentionedLayers r, larch'.getD L = larch.getD L) →
+    (assertAppliesLayer mt (compileLayerRule larch r) g = .err .lookupError ↔
+      assertAppliesLayer mt (compileLayerRule larch' r) g = .err .lookupError) ∧
+    (assertAppliesLayer mt (compileLayerRule larch r) g = .err .impossibleMatch ↔
+      assertAppliesLayer mt (compileLayerRule larch' r) g = .err .impossibleMatch)) ∧
+  -- 23 `Pta.C13.layer_regex_no_match`
+  (∀ (mt : Str → Str → Bool) (g : PGraph Str) (larch : LArch) (r : LRuleSpec),
+    r.anything = false →
+    larch.getD r.subject ≠ [] → r.objects.flatMap larch.getD ≠ [] →
+    ∀ (L : Str), L ∈ mentionedLayers r → ∀ (f : Filter), f ∈ larch.getD L →
+    f.isRegex = true → (∀ m ∈ g.nodes, mt f.id m = false) →
+    assertAppliesLayer mt (compileLayerRule larch r) g = .err .impossibleMatch) ∧
+  -- 24 `Pta.C13.layer_regex_no_match_any`
+  (∀ (mt : Str → Str → Bool) (g : PGraph Str) (larch : LArch) (r : LRuleSpec),
+    r.anything = true → r.verb = .shouldNot → ∀ (p : Str), larch.getD r.subject = [.regex p] →
+    (∀ m ∈ g.nodes, mt p m = false) →
+    assertAppliesLayer mt (compileLayerRule larch r) g = .err .impossibleMatch) ∧
+  -- 25 `Pta.C13.diagram_unknown_component`
+  (∀ (mt : Str → Str → Bool) (g : PGraph Str) (so : Bool) (p : Parsed') (base : Option Str),
+    (∀ kv ∈ p.dependencies, kv.2 ≠ []) → ∀ (m : Str),
+    ((m ∈ p.modules ∧ ∃ x ∈ p.modules, x ≠ m) ∨ ∃ kv ∈ p.dependencies, m = kv.1 ∨ m ∈ kv.2) →
+    g.hasNode (withBase base m) = false →
+    applyAll mt g (diagramRules so (prefixParsed p base)) = .err .lookupError) ∧
+  -- 26 `Pta.C13.diagram_lookup_error_iff`
+  (∀ (mt : Str → Str → Bool) (g : PGraph Str) (so : Bool) (p : Parsed') (base : Option Str),
+    (∀ kv ∈ p.dependencies, kv.2 ≠ []) →
+    (applyAll mt g (diagramRules so (prefixParsed p base)) = .err .lookupError ↔
+      ∃ m, Checked p m ∧ g.hasNode (withBase base m) = false) ∧
+    (∀ k, applyAll mt g (diagramRules so (prefixParsed p base)) = .err k → k = .lookupError)) ∧
+  -- 27 `Pta.C13.diagram_single_component`
+  (∀ (mt : Str → Str → Bool) (g : PGraph Str) (so : Bool) (m : Str) (base : Option Str),
+    diagramRules so (prefixParsed ⟨[m], []⟩ base) = [] ∧
+    applyAll mt g (diagramRules so (prefixParsed ⟨[m], []⟩ base)) = .pass) ∧
+  -- 28 `Pta.C13.diagram_file_lookup_error_iff`
+  (∀ (mt : Str → Str → Bool) (g : PGraph Str) (so : Bool) (c : Str) (base : Option Str)
+    (p : Parsed'), pumlParse c = .ok p →
+    (diagramAssert mt (some c) base so g = .err .lookupError ↔ ∃ m, Checked p m ∧ g.hasNode (withBase base m) = false) ∧
+    (∀ k, diagramAssert mt (some c) base so g = .err k → k = .lookupError)) ∧
+  -- 29 `Pta.C13.too_deep_not_node`
+  (∀ (a : Arch), a.wf = true → ∀ (k : Nat) (n : Name), nameWF n = true →
+    k + 1 < n.length → (archGraphLim a (some k)).hasNode (render n) = false) ∧
+  -- 30 `Pta.C13.too_deep_name`
+  (∀ (mt : Str → Str → Bool) (a : Arch), a.wf = true → ∀ (k : Nat) (b : Behavior) (dir : Bool)
+    (subs objs : List Filter),
+    (b.should = true ∨ b.shouldOnly = true ∨ b.shouldNot = true) →
+    subs ≠ [] → objs ≠ [] →
+    (∀ f ∈ subs ++ objs, f.isRegex = false) →
+    ∀ (n : Name), n ∈ a.nodes → k + 1 < n.length →
+    ∀ (f : Filter), f ∈ subs ++ objs → f.id = render n →
+    matchRule mt (archGraphLim a (some k)) b dir subs objs = .err .lookupError) ∧
+  -- 31 `Pta.C13.too_deep_layer`
+  (∀ (mt : Str → Str → Bool) (a : Arch), a.wf = true → ∀ (k : Nat) (larch : LArch) (r : LRuleSpec),
+    (r.anything = true → r.verb = .shouldNot) →
+    larch.getD r.subject ≠ [] → (r.anything = true ∨ r.objects.flatMap larch.getD ≠ []) →
+    (∀ f ∈ mentioned larch r, f.isRegex = true → ∃ m ∈ (archGraphLim a (some k)).nodes, mt f.id m = true) →
+    ∀ (L : Str), L ∈ mentionedLayers r → ∀ (f : Filter), f ∈ larch.getD L → f.isRegex = false →
+    ∀ (n : Name), n ∈ a.nodes → k + 1 < n.length → f.id = render n →
+    assertAppliesLayer mt (compileLayerRule larch r) (archGraphLim a (some k)) = .err .lookupError) ∧
+  -- 32 `Pta.C13.module_path_outside_root`
+  (∀ (mt : Str → Str → Bool) (fs : Str → List Entry) (rootPath modulePath : Str) (a : EntryArgs),
+    entryOptionsError (a.flags true) = none →
+    (parsePath modulePath).relativeTo (parsePath rootPath) = .error .lookupError →
+    getEvaluableArchitecture mt fs rootPath modulePath a = .error (.kind .lookupError)) ∧
+  -- 33 `Pta.C13.options_before_paths`
+  (∀ (mt : Str → Str → Bool) (fs : Str → List Entry) (rootPath modulePath : Str) (a : EntryArgs)
+    (k : ErrKind), entryOptionsError (a.flags true) = some k →
+    k = .improperlyConfigured ∧
+    getEvaluableArchitecture mt fs rootPath modulePath a = .error (.kind .improperlyConfigured)) ∧
+  -- 34 `Pta.C13.module_objects_outside_root`
+  (∀ (mt : Str → Str → Bool) (fs : Str → List Entry) (rootModule module : ModuleObj)
+    (a : EntryArgs), entryOptionsError (a.flags true) = none →
+    (parsePath (dirname module.file)).relativeTo (parsePath (dirname rootModule.file)) = .error .lookupError →
+    scanForModuleObjects mt fs rootModule module a = .error (.kind .lookupError))
 
 theorem c13 : C13_Statement :=
   ⟨@Pta.C13.rule_history_raises, @Pta.C13.rule_history_error_at, @Pta.C13.rule_history_complete,
@@ -2126,7 +2295,12 @@ theorem c13 : C13_Statement :=
    @Pta.C13.diagram_history_raises, @Pta.C13.diagram_incomplete_iff, @Pta.C13.diagram_history_complete,
    @Pta.C13.diagram_history_no_tags, @Pta.C13.diagram_history_conforms_iff,
    @Pta.C13.diagram_history_base_conforms_iff, @Pta.C13.diagram_history_incomplete,
-   @Pta.C04.path_entry_option_error⟩
+   @Pta.C04.path_entry_option_error,
+   @Pta.C13.layer_unknown_module, @Pta.C13.layer_unmentioned_irrelevant, @Pta.C13.layer_regex_no_match,
+   @Pta.C13.layer_regex_no_match_any, @Pta.C13.diagram_unknown_component, @Pta.C13.diagram_lookup_error_iff,
+   @Pta.C13.diagram_single_component, @Pta.C13.diagram_file_lookup_error_iff, @Pta.C13.too_deep_not_node,
+   @Pta.C13.too_deep_name, @Pta.C13.too_deep_layer, @Pta.C13.module_path_outside_root,
+   @Pta.C13.options_before_paths, @Pta.C13.module_objects_outside_root⟩
 
 end C13
 
@@ -2178,6 +2352,41 @@ open PtaSpec
       (5) "plot label" — conjunct 11 (`Pta.C14.labels_ren`): labels of the renamed modules under the renamed alias table:
           alias text kept, remaining components renamed (hypotheses of C17: well-formed names, distinct aliased
           modules that exist).
+      (6) SCAN LEVEL — "invariant … under any injective renaming of path components" read as a renaming of the
+          directories and files ON DISK (Props/C14Scan.lean; Bridge/RenameScan.lean).  The renamed inputs: every path
+          component of every `Entry.rel` (`renFile ρ`: the stem is renamed, the suffix kept — `x ↦ ρ x`,
+          `x.py ↦ (ρ x).py`; `Pta.C14.renFile_spec`), the root directory's name (`ρ root`), the components of
+          `module_path` (`mp.map (renFile ρ)`), every dotted name in every import statement (`renStmt ρ`; for AST
+          nodes `Pta.C14.collect_ren`); the path string of the root directory (`base'`) is arbitrary; the renamed scan
+          may use any exclusion patterns `ps'` / matcher `mt'` whose test agrees with the original one on the paths of
+          the listing (`ExclTransported`; trivially so without patterns, `Pta.C14.exclTransported_noPatterns`).
+          Domain: trees well-formed as far as the scan can see them (`treeWFFor`, `mpOK`, `compWF root`),
+          parser-producible statements (`stmtOK`), external modules excluded without external patterns (the
+          default), ANY level limit.  (These hypotheses are preserved by the renaming: `Pta.C14.scan_hyps_ren`.)
+          Conjunct 15 (`Pta.C14.scan_arch_ren`): the specification architecture of the renamed tree is the renamed
+          specification architecture (`scanModules`, `scanImports`; "no answer" stays "no answer"); conjunct 16
+          (`Pta.C14.scan_ren`): the scan of the renamed tree has the outcome class of the original scan (a relative
+          import above the root stays a `LookupError`), and on success its graph has exactly the nodes, hierarchy
+          pairs and import pairs of the image of the original graph (`GraphEquiv g' (mapGraph (renDotted ρ) g)`, and
+          likewise for the guarded, injective string renaming `renStr ρ`); conjunct 17 (`Pta.C14.scan_error_ren`):
+          errors correspond in both directions; conjunct 18 (`Pta.C14.scan_verdict_ren`): EVERY module rule with
+          well-formed identifiers (`ruleWF r`: strict or not, `parentFree` or not, names scanned or not) has on the
+          renamed scan, with the renamed names, the verdict class it has on the original scan; conjunct 19
+          (`Pta.C14.scan_report_ren`): and the message text is the rendering of the original report with every module
+          name renamed; conjunct 20 (`Pta.C14.scan_labels_ren`, no level limit): plot labels under the renamed alias
+          table (keys distinct scanned modules): alias texts kept, components below the aliased ancestor renamed.
+          Externals INCLUDED — conjunct 21 (`Pta.C14.scan_ren_ext`; `exclude_external_libraries=False`, no external
+          exclusion patterns, no level limit; `ρ` acts on the names of external modules too, a renaming meant to
+          leave the libraries alone has `ρ c = c` on their components): same outcome class, graph = image under
+          `renStr ρ`, external nodes, their dotted parents and all import edges included (verdicts and messages of
+          module rules on such scans: `Pta.C14.scan_verdict_ren_ext`, `scan_report_ren_ext`).
+          The hypotheses are needed (witnesses, cited): `Pta.C14.ScanNeeds.scan_ren_needs_injective` (`y ↦ x` puts
+          `x.py` next to `x/`: an import pair of the image is only a hierarchy edge of the renamed scan),
+          `Pta.C14.ScanNeeds.scan_ren_needs_dotfree` (`x ↦ a.py`: the directory `r/a.py` is the module `r.a` with the
+          package `r.a.py` below it), `Pta.C14.ScanNeeds.scan_ren_needs_transport` (the same glob `*x` on both sides
+          no longer excludes the renamed directory).  `treeWFFor` comes from the route through the specification; it
+          is not known to be needed (an `example` of Props/C14Scan.lean: on the collision tree of
+          `Pta.E2E.collision_needs_treeWF` the statement still holds).
     Not carried by a theorem (correspondence check only / outside the model):
       * the message TEXT under renamings that INTRODUCE `"` into a path component (or for names that contain `"`):
         conjunct 14 needs quote-free names, and the hypothesis cannot be dropped —
@@ -2187,7 +2396,17 @@ open PtaSpec
       * the message text under renaming for LAYER rules and DIAGRAM rules: conjuncts 8–10 rename report items / tags;
         their texts (`assertAppliesLayerText`, `applyAllText`) are not related by a theorem.
       * regex specifications (excluded by the property's quantifier; `mt` is not renamed).
-      * scan-level invariance (renaming directories on disk) — only `isInternal_ren` and C04's naming theorems. -/
+      * scan-level invariance (6), what is still missing: scans with externals included AND external exclusion
+        patterns, or externals included AND a level limit (conjunct 21 needs `externalExclusions` empty and
+        `levelLimit = none`; a pattern is a raw-string test on the external's name and would have to be transported
+        like `ExclTransported`); LAYER rules and DIAGRAM rules on the renamed scan (conjuncts 8–10 are stated on
+        `archGraph (renArch ρ a)`; their composition with conjunct 16 — from `GraphEquiv g' (mapGraph … g)` to the
+        layer / diagram outcome — is not proved; module rules: conjuncts 18, 19); plot labels under a level limit or
+        with externals included (conjunct 20 has `levelLimit = none`, externals excluded); the message text of
+        conjunct 19 as renamed LINES (it is the rendering of the renamed report items, the scan-level analogue of
+        conjunct 13, not of conjunct 14); trees outside `treeWFFor` (not known to be needed, see (6)).
+      * that renaming a directory on disk changes the listing as `renEntries ρ` says (`os.walk` / `Path` behaviour) —
+        the file system is the argument `entries` of the model. -/
 def C14_Statement : Prop :=
   -- 1 `Pta.C14.raw_test_is_prefix`
   (∀ (p n : Name), nameWF p = true → nameWF n = true →
@@ -2265,13 +2484,109 @@ def C14_Statement : Prop :=
       (assertAppliesText mt (compile (renRule ρ r)) (archGraph (renArch ρ a))).2 = .err k) ∧
     (∀ lines, (assertAppliesText mt (compile r) (archGraph a)).2 = .fail lines →
       ∃ lines', (assertAppliesText mt (compile (renRule ρ r)) (archGraph (renArch ρ a))).2 = .fail lines' ∧
-        lines'.Perm (lines.map (renLine ρ)) ∧ lines' = sortStr (lines.map (renLine ρ))))
+        lines'.Perm (lines.map (renLine ρ)) ∧ lines' = sortStr (lines.map (renLine ρ)))) ∧
+  -- 15 `Pta.C14.scan_arch_ren`
+  (∀ (mt mt' : Str → Str → Bool) (base base' root : Str) (mp : List Str) (entries : List Entry) (o : ScanOptions)
+    (ps' : Patterns) (ρ : Comp → Comp), GoodRen ρ →
+    treeWFFor (isExcluded mt o.exclusions) base mp entries = true → mpOK entries mp = true →
+    compWF root = true →
+    (∀ e ∈ entries, ∀ st ∈ e.stmts, stmtOK (toSStmt st) = true) →
+    ExclTransported ρ (isExcluded mt o.exclusions) (isExcluded mt' ps') base base' entries →
+    scanModules (ρ root) (toSEntries (isExcluded mt' ps') base' (renEntries ρ entries)) (mp.map (renFile ρ)) =
+      (scanModules root (toSEntries (isExcluded mt o.exclusions) base entries) mp).map (renName ρ) ∧
+    scanImports (ρ root) (toSEntries (isExcluded mt' ps') base' (renEntries ρ entries)) (mp.map (renFile ρ)) =
+      (scanImports root (toSEntries (isExcluded mt o.exclusions) base entries) mp).map
+        (List.map fun e => (renName ρ e.1, renName ρ e.2))) ∧
+  -- 16 `Pta.C14.scan_ren`
+  (∀ (mt mt' : Str → Str → Bool) (base base' root : Str) (mp : List Str) (entries : List Entry) (o : ScanOptions)
+    (ps' : Patterns) (ρ : Comp → Comp), GoodRen ρ →
+    treeWFFor (isExcluded mt o.exclusions) base mp entries = true → mpOK entries mp = true →
+    compWF root = true →
+    (∀ e ∈ entries, ∀ st ∈ e.stmts, stmtOK (toSStmt st) = true) →
+    ExclTransported ρ (isExcluded mt o.exclusions) (isExcluded mt' ps') base base' entries →
+    o.excludeExternal = true → o.externalExclusions.isEmpty = true →
+    match generateGraph mt base root mp entries o with
+    | .ok g => ∃ g', generateGraph mt' base' (ρ root) (mp.map (renFile ρ)) (renEntries ρ entries)
+          (o.withExclusions ps') = .ok g' ∧
+        GraphEquiv g' (mapGraph (renDotted ρ) g) ∧ GraphEquiv g' (mapGraph (renStr ρ) g)
+    | .error k => generateGraph mt' base' (ρ root) (mp.map (renFile ρ)) (renEntries ρ entries)
+          (o.withExclusions ps') = .error k) ∧
+  -- 17 `Pta.C14.scan_error_ren`
+  (∀ (mt mt' : Str → Str → Bool) (base base' root : Str) (mp : List Str) (entries : List Entry) (o : ScanOptions)
+    (ps' : Patterns) (ρ : Comp → Comp), GoodRen ρ →
+    treeWFFor (isExcluded mt o.exclusions) base mp entries = true → mpOK entries mp = true →
+    compWF root = true →
+    (∀ e ∈ entries, ∀ st ∈ e.stmts, stmtOK (toSStmt st) = true) →
+    ExclTransported ρ (isExcluded mt o.exclusions) (isExcluded mt' ps') base base' entries →
+    o.excludeExternal = true → o.externalExclusions.isEmpty = true →
+    ∀ (k : ErrKind),
+    generateGraph mt' base' (ρ root) (mp.map (renFile ρ)) (renEntries ρ entries) (o.withExclusions ps') = .error k ↔
+      generateGraph mt base root mp entries o = .error k) ∧
+  -- 18 `Pta.C14.scan_verdict_ren`
+  (∀ (mt mt' : Str → Str → Bool) (base base' root : Str) (mp : List Str) (entries : List Entry) (o : ScanOptions)
+    (ps' : Patterns) (ρ : Comp → Comp), GoodRen ρ →
+    treeWFFor (isExcluded mt o.exclusions) base mp entries = true → mpOK entries mp = true →
+    compWF root = true →
+    (∀ e ∈ entries, ∀ st ∈ e.stmts, stmtOK (toSStmt st) = true) →
+    ExclTransported ρ (isExcluded mt o.exclusions) (isExcluded mt' ps') base base' entries →
+    o.excludeExternal = true → o.externalExclusions.isEmpty = true →
+    ∀ (g g' : PGraph Str), generateGraph mt base root mp entries o = .ok g →
+    generateGraph mt' base' (ρ root) (mp.map (renFile ρ)) (renEntries ρ entries) (o.withExclusions ps') = .ok g' →
+    ∀ (mt'' : Str → Str → Bool) (r : RuleSpec), ruleWF r = true →
+    verdictOf mt'' g' (compile (renRule ρ r)) = verdictOf mt'' g (compile r)) ∧
+  -- 19 `Pta.C14.scan_report_ren`
+  (∀ (mt mt' : Str → Str → Bool) (base base' root : Str) (mp : List Str) (entries : List Entry) (o : ScanOptions)
+    (ps' : Patterns) (ρ : Comp → Comp), GoodRen ρ →
+    treeWFFor (isExcluded mt o.exclusions) base mp entries = true → mpOK entries mp = true →
+    compWF root = true →
+    (∀ e ∈ entries, ∀ st ∈ e.stmts, stmtOK (toSStmt st) = true) →
+    ExclTransported ρ (isExcluded mt o.exclusions) (isExcluded mt' ps') base base' entries →
+    o.excludeExternal = true → o.externalExclusions.isEmpty = true →
+    ∀ (g g' : PGraph Str), generateGraph mt base root mp entries o = .ok g →
+    generateGraph mt' base' (ρ root) (mp.map (renFile ρ)) (renEntries ρ entries) (o.withExclusions ps') = .ok g' →
+    ∀ (mt'' : Str → Str → Bool) (r : RuleSpec), ruleWF r = true →
+    (assertAppliesText mt'' (compile (renRule ρ r)) g').2 =
+      ((assertApplies mt'' (compile r) g).2.mapId (renStr ρ)).toText) ∧
+  -- 20 `Pta.C14.scan_labels_ren`
+  (∀ (mt mt' : Str → Str → Bool) (base base' root : Str) (mp : List Str) (entries : List Entry) (o : ScanOptions)
+    (ps' : Patterns) (ρ : Comp → Comp), GoodRen ρ →
+    treeWFFor (isExcluded mt o.exclusions) base mp entries = true → mpOK entries mp = true →
+    compWF root = true →
+    (∀ e ∈ entries, ∀ st ∈ e.stmts, stmtOK (toSStmt st) = true) →
+    ExclTransported ρ (isExcluded mt o.exclusions) (isExcluded mt' ps') base base' entries →
+    o.excludeExternal = true → o.externalExclusions.isEmpty = true →
+    ∀ (g g' : PGraph Str), generateGraph mt base root mp entries o = .ok g →
+    generateGraph mt' base' (ρ root) (mp.map (renFile ρ)) (renEntries ρ entries) (o.withExclusions ps') = .ok g' →
+    o.levelLimit = none → ∀ (al : Aliases), (al.map (·.1)).Nodup →
+    (∀ a ∈ al, a.1 ∈ scanModules root (toSEntries (isExcluded mt o.exclusions) base entries) mp) →
+    ∃ ls ls', plotLabels g.nodes (al.map fun a => (render a.1, a.2)) = .ok ls ∧
+      plotLabels g'.nodes ((renAliases ρ al).map fun a => (render a.1, a.2)) = .ok ls' ∧
+      ls.map (·.1) = g.nodes ∧ ls'.map (·.1) = g'.nodes ∧
+      ls.Perm ((scanModules root (toSEntries (isExcluded mt o.exclusions) base entries) mp).map
+        fun n => (render n, labelWith id al n)) ∧
+      ls'.Perm ((scanModules root (toSEntries (isExcluded mt o.exclusions) base entries) mp).map
+        fun n => (render (renName ρ n), labelWith (renName ρ) al n))) ∧
+  -- 21 `Pta.C14.scan_ren_ext`
+  (∀ (mt mt' : Str → Str → Bool) (base base' root : Str) (mp : List Str) (entries : List Entry) (o : ScanOptions)
+    (ps' : Patterns) (ρ : Comp → Comp), GoodRen ρ →
+    treeWFFor (isExcluded mt o.exclusions) base mp entries = true → mpOK entries mp = true →
+    compWF root = true →
+    (∀ e ∈ entries, ∀ st ∈ e.stmts, stmtOK (toSStmt st) = true) →
+    ExclTransported ρ (isExcluded mt o.exclusions) (isExcluded mt' ps') base base' entries →
+    o.excludeExternal = false → o.externalExclusions.isEmpty = true → o.levelLimit = none →
+    match generateGraph mt base root mp entries o with
+    | .ok g => ∃ g', generateGraph mt' base' (ρ root) (mp.map (renFile ρ)) (renEntries ρ entries)
+          (o.withExclusions ps') = .ok g' ∧ GraphEquiv g' (mapGraph (renStr ρ) g)
+    | .error k => generateGraph mt' base' (ρ root) (mp.map (renFile ρ)) (renEntries ρ entries)
+          (o.withExclusions ps') = .error k)
 
 theorem c14 : C14_Statement :=
   ⟨@Pta.C14.raw_test_is_prefix, @Pta.C14.desc_ren, @Pta.C14.verdict_ren, @Pta.C14.violating_ren,
    @Pta.C14.model_verdict_ren_all, @Pta.C14.model_report_ren, @Pta.C14.layerOf_ren, @Pta.C14.layer_report_ren,
    @Pta.C14.layer_verdict_ren_cls, @Pta.C14.diagram_spec_ren, @Pta.C14.labels_ren, @Pta.C14.isInternal_ren,
-   @Pta.C14.text_ren_items, @Pta.C14.text_ren⟩
+   @Pta.C14.text_ren_items, @Pta.C14.text_ren,
+   @Pta.C14.scan_arch_ren, @Pta.C14.scan_ren, @Pta.C14.scan_error_ren, @Pta.C14.scan_verdict_ren,
+   @Pta.C14.scan_report_ren, @Pta.C14.scan_labels_ren, @Pta.C14.scan_ren_ext⟩
 
 end C14
 
@@ -2291,11 +2606,44 @@ open PtaSpec
     filters as sets, the same flags.  `assertAppliesText` returns the rewritten rule object and the outcome WITH the
     literal list of message lines, so the conjuncts below are about verdict AND message.
 
+    The history machine (Bridge/History.lean): a `World` holds any number of `Rule` objects (`RuleState`), `LayerRule`
+    objects (`LayerRuleState`), `DiagramRule` objects (`DiagramRuleState`) and evaluable architectures (`PGraph Str`);
+    an event `Ev` is one call `object_i.assert_applies(architecture_j)` (`.rule i j`, `.layerRule i j`,
+    `.diagramRule i j`); `step` makes the call with the model's functions and WRITES THE OBJECT THE CALL LEAVES BEHIND
+    BACK INTO ITS SLOT (`Rule._configuration` is rewritten in place by `_convert_aliases`), so that later events see the
+    rewritten object; `exec mt w h` is the world after the history `h`, `run mt w h` its outcomes in order,
+    `outcomeIn mt w e` the outcome of `e` in `w`, `trace mt w h` the (event, outcome) pairs; `Outcome` is pass / the
+    literal message lines (for a diagram rule: report items and aggregated text) / the exception, or `none` when an index
+    is out of range (no call is made).
+
     Clause map:
+      (0) "Evaluating any number of rules, layer rules or diagram rules leaves the evaluable architecture unchanged" —
+          conjunct 18 (`Pta.C15.history_archs_unchanged`): for every world and EVERY history (any length, any mixture of
+          the three object kinds, any objects, any architectures) the list of architectures after the history is
+          literally the list before it (also the diagram-rule objects: `Pta.C15.history_diagram_rules_unchanged`).
+          "the verdict and message of a rule do not depend on which rules were evaluated before it, on how often the
+          same rule object is re-applied or to how many architectures" — conjunct 19
+          (`Pta.C15.history_outcome_fresh`): for every history `h` and event `e`, the outcome of `e` after `h` —
+          verdict, message lines, exception — is its outcome in the INITIAL world; conjunct 20
+          (`Pta.C15.history_outcomes`): hence the outcomes of a history are the outcomes of its events in the initial
+          world; what that outcome is — conjunct 25 (`Pta.C15.outcome_initial`): the model's function
+          (`assertAppliesText`, `assertAppliesLayerText`, `DiagramRuleState.assertApplies` / `assertAppliesText`)
+          applied to the INITIAL object in slot `i` and architecture `j`; conjuncts 21, 22
+          (`Pta.C15.history_rule_outcome`, `history_layer_rule_outcome`): whatever was evaluated before, rule object /
+          layer-rule object `i` applied to architecture `j` gives what the object ORIGINALLY in slot `i` gives on it
+          (the general form of conjunct 1).  Order of the evaluations — conjunct 23 (`Pta.C15.history_perm`): the
+          multiset of (event, outcome) pairs is invariant under permuting the history; conjunct 24
+          (`Pta.C15.history_final`): the world left behind in closed form (`World.after`: an object that was really
+          called at least once is in `_convert_aliases`-normal form, every other object and every architecture is
+          untouched), so the objects left behind do not depend on the order either
+          (`Pta.C15.history_final_perm`).  The invariant behind these is `World.Equiv` (slot-wise the same normal
+          form): `Pta.C15.history_equiv`, `world_equiv_congr`, `rule_equiv_congr`, `layer_rule_equiv_congr`,
+          `rule_step_normalForm`.  The history is NOT a no-op on the objects (an `example` of Props/C15Hist.lean: slot
+          0 is rewritten by the first call and the later events run on the rewritten object).
       (1) "on how often the same rule object is re-applied or to how many architectures" — conjunct 1
           (`Pta.C15.report_reapply`): applying the rule object left behind by a first application (to any graph) gives the
           outcome and message lines a fresh rule object gives (the only in-place rewrite, `_convert_aliases`, is idempotent
-          and keeps the subjects it removed).
+          and keeps the subjects it removed).  For arbitrary histories: (0), conjuncts 19–22.
       (2) "on the order in which subjects, objects … were listed" — conjunct 2 (`Pta.C15.report_congr`, master statement:
           every rule state, any order and multiplicity of subjects / objects, two graphs with the same node and edge sets);
           conjunct 3 (`Pta.C15.report_perm_anything`): the `anything` aliases; conjunct 10 (`Pta.C15.run_report_perm`): the
@@ -2335,10 +2683,16 @@ open PtaSpec
           `does not import` item (C07, `report_lists_objects_in_dict_order`) does NOT reach the text, which sorts them
           (`Pta.C15.diagram_message_objects_sorted`).
     Not carried by a theorem (correspondence check only / outside the model):
-      * "leaves the evaluable architecture unchanged" and "do not depend on which rules were evaluated before it": the
-        model is a pure function of (rule object, graph); the graph is not threaded through evaluations, so there is
-        nothing to state — purity of the Python objects (frozen networkx graph, matcher caches) is observed by the
-        snapshot runs only.
+      * "leaves the evaluable architecture unchanged" / "do not depend on which rules were evaluated before it … how
+        often … to how many architectures" are statements about the history machine now ((0), conjuncts 18–25).  What
+        the machine does NOT contain: (a) BUILDER calls interleaved with applications on the same object (a history
+        is a list of `assert_applies` events on finished objects; `Rule` chains continued after an application,
+        `DiagramRule.from_file` between applications — the latter only as the one-shot statements of C13 / C16);
+        (b) two slots ALIASING one Python object (slots are values: a call on slot `i` rewrites slot `i` only; by
+        conjunct 19 an alias could not change an outcome, since the rewritten object is equivalent to the original,
+        but the aliasing itself is not modelled); (c) that the model's functions cannot touch the graph is true by
+        their TYPE (`step` copies `archs`); that the Python objects behave so (frozen networkx graph, matcher
+        caches) is observed by the snapshot runs only.
       * "the interpreter's hash seed" (set / dict iteration order): outside the model; the theorems above show the
         outcome depends on lists only as sets, which is the reason the seed cannot matter, but the seed itself is only
         exercised by the 8-seed correspondence run.
@@ -2430,14 +2784,43 @@ def C15_Statement : Prop :=
     diagramAssertText mt (some (linesText noise1 lines noise2)) base so g = .fail t →
     diagramAssertText mt (some (linesText noise1 lines' noise2)) base so g = .fail t' →
     (∀ l ∈ aggLines mt g (diagramRulesOf (linesText noise1 lines noise2) base so), '\n' ∉ l) →
-    (splitLines t).Perm (splitLines t'))
+    (splitLines t).Perm (splitLines t')) ∧
+  -- 18 `Pta.C15.history_archs_unchanged`
+  (∀ (mt : Str → Str → Bool) (w : World) (h : List Ev), (exec mt w h).archs = w.archs) ∧
+  -- 19 `Pta.C15.history_outcome_fresh`
+  (∀ (mt : Str → Str → Bool) (w : World) (h : List Ev) (e : Ev),
+    outcomeIn mt (exec mt w h) e = outcomeIn mt w e) ∧
+  -- 20 `Pta.C15.history_outcomes`
+  (∀ (mt : Str → Str → Bool) (w : World) (h : List Ev), run mt w h = h.map (outcomeIn mt w)) ∧
+  -- 21 `Pta.C15.history_rule_outcome`
+  (∀ (mt : Str → Str → Bool) (w : World) (h : List Ev) (i j : Nat) (r : RuleState) (g : PGraph Str),
+    w.rules[i]? = some r → w.archs[j]? = some g →
+    outcomeIn mt (exec mt w h) (.rule i j) = .rule (assertAppliesText mt r g).2) ∧
+  -- 22 `Pta.C15.history_layer_rule_outcome`
+  (∀ (mt : Str → Str → Bool) (w : World) (h : List Ev) (i j : Nat) (s : LayerRuleState)
+    (g : PGraph Str), w.layerRules[i]? = some s → w.archs[j]? = some g →
+    outcomeIn mt (exec mt w h) (.layerRule i j) = .layerRule (assertAppliesLayerText mt s g)) ∧
+  -- 23 `Pta.C15.history_perm`
+  (∀ (mt : Str → Str → Bool) (w : World) (h h' : List Ev), h.Perm h' →
+    (trace mt w h).Perm (trace mt w h')) ∧
+  -- 24 `Pta.C15.history_final`
+  (∀ (mt : Str → Str → Bool) (w : World) (h : List Ev), exec mt w h = w.after h) ∧
+  -- 25 `Pta.C15.outcome_initial`
+  (∀ (mt : Str → Str → Bool) (w : World) (i j : Nat) (g : PGraph Str), w.archs[j]? = some g →
+    (∀ r, w.rules[i]? = some r → outcomeIn mt w (.rule i j) = .rule (assertAppliesText mt r g).2) ∧
+    (∀ s, w.layerRules[i]? = some s → outcomeIn mt w (.layerRule i j) = .layerRule (assertAppliesLayerText mt s g)) ∧
+    (∀ d, w.diagramRules[i]? = some d →
+      outcomeIn mt w (.diagramRule i j) = .diagramRule (d.assertApplies mt g) (d.assertAppliesText mt g)))
 
 theorem c15 : C15_Statement :=
   ⟨@Pta.C15.report_reapply, @Pta.C15.report_congr, @Pta.C15.report_perm_anything,
    @Pta.C15.report_perm_modules_imports, @Pta.C15.scan_graph_perm, @Pta.C15.scan_report_perm, @Pta.C15.perm_patterns,
    @Pta.C15.report_layer_congr, @Pta.C15.scan_report_layer_perm, @Pta.C15.run_report_perm,
    @Pta.C15.run_layer_report_perm, @Pta.C15.applyAll_perm, @Pta.C15.applyAll_perm_err, @Pta.C15.diagram_text_perm,
-   @Pta.C15.diagram_rules_text_perm, @Pta.C15.diagram_message_lines_perm, @Pta.C15.diagram_message_text_lines_perm⟩
+   @Pta.C15.diagram_rules_text_perm, @Pta.C15.diagram_message_lines_perm, @Pta.C15.diagram_message_text_lines_perm,
+   @Pta.C15.history_archs_unchanged, @Pta.C15.history_outcome_fresh, @Pta.C15.history_outcomes,
+   @Pta.C15.history_rule_outcome, @Pta.C15.history_layer_rule_outcome, @Pta.C15.history_perm,
+   @Pta.C15.history_final, @Pta.C15.outcome_initial⟩
 
 end C15
 
